@@ -127,7 +127,7 @@ def stand_in(props, name, title, function, bound_text, primary=True):
 stand_in(("C14", "C02"), "join", "base.join(ref) == RFC 3986 5.2.2 (non-strict) on the encoded components",
          "yarl._url:URL.join",
          "bases and references built from scheme in {http, '', other}, authority in {none, h}, paths of <= 3 segments "
-         "over {a, b.c, '.', '..', '', %2e}, query/fragment in {absent, present}")
+         "over {a, b.c, '.', '..', '', %2e, x%2Fy}, query/fragment in {absent, present}", primary=False)
 stand_in(("C13", "C11"), "path_algebra", "raw_parts / name / suffix / '/' / joinpath / with_name / with_suffix / parent identities",
          "yarl._url:URL._make_child",
          "bases over {absolute, rooted, rootless, empty} x paths of <= 3 (quick) / 4 (thorough) segments over {a, b.c, '', %2F, e-acute} x "
